@@ -4,8 +4,10 @@
 2. correspondence: the REAL factories (harness/c17.cpp: WKB/EWKB/hex, WKT/EWKT, GeoJSON ×
    unique/all × forward/backward × identity/Mercator × precision 0..17, objects built with the
    real builders) vs the compiled Lean factory model (lean/Driver/C17.lean) — byte-exact.
-   The model variant (today's code `c` / repaired `r`) is chosen by probing the real code, so
-   the check keeps working when the proposed patches are applied.
+   The model's main line is the FIXED code (variant `r`; fix commits 5a3ae5e, e768562, d672e4f).
+   Three regression probes (F10, short ring, precision-0 zero stripping) are run first; if the
+   tree shows the old behaviour they raise VIOLATION under the stable finding keys and the
+   correspondence then follows the old variant `c`, so that only the regression is reported.
 3. monitors on the implementation alone: every output is decoded by the independent Lean
    decoders and compared with a Python oracle of the specification (structure; WKB doubles as
    bit patterns against the harness's own fixed-point conversion; text numbers as exact
@@ -396,7 +398,31 @@ def run(ctx):
         if dis:
             ctx.violation('correspondence:' + dis[0][1][:80], 'double2string model and implementation disagree: %r' % (dis[0],),
                           {'kind': 'broken-correspondence', 'first': dis[:5]}, found_input=False)
-    # risky ones under ASan: expected to abort today (F9 / precision-0 under-read)
+    # buffer clause on the fixed code: everything the 20-byte buffer / zero loop could not take
+    # (len >= 20, all-zero output at precision 0) is run again under ASan and must give the same text
+    if v_d2s == 'r':
+        hard = [(k, op) for (k, op) in safe_ops if d2s_class(info[k][0], k[1]) != 'safe']
+        if not quick or len(hard) <= 3000:
+            sel = hard
+        else:
+            sel = [hard[i] for i in range(0, len(hard), max(1, len(hard) // 3000))]
+        ctx.count('d2s-asan-rerun', len(sel))
+        for c0 in ('len20', 'overread', 'underread'):
+            ctx.count('d2s-asan-rerun:' + c0, sum(1 for k, _ in sel if d2s_class(info[k][0], k[1]) == c0))
+        if sel:
+            out, crashed, se = A([o for _, o in sel])
+            if crashed:
+                k, op = sel[len(out)] if len(out) < len(sel) else sel[-1]
+                under = d2s_class(info[k][0], k[1]) == 'underread'
+                ctx.violation(K_P0U if under else K_F9, 'double2string(%r, %d) aborts under ASan: %s' % (dbl(k[0]), k[1], asan_line(se)),
+                              {'kind': 'counterexample', 'op': op, 'asan': se[-1500:], 'replay': 'echo "<op>" | <asan harness c17>'})
+            else:
+                for (k, op), r in zip(sel, out):
+                    if d2s.get(k) is not None and r != 'ok ' + hexs(d2s[k]):
+                        ctx.violation('double2string-asan-differs:' + op[:60], 'ASan and plain build disagree on %s: %s vs %r' % (op, r, d2s[k]),
+                                      {'kind': 'counterexample', 'op': op})
+                        break
+    # before the fixes: the risky ones only under ASan, where they abort (F9 / precision-0 under-read)
     asan_clean = True
     if risky_ops:
         order = sorted(risky_ops, key=lambda t: ({'underread': 0, 'overread': 1, 'len20': 2}[info[t[0]][1]], t[1]))
